@@ -174,3 +174,66 @@ PROPS["C11"] = _mapper_prop("This property (part a): every Ok of a leaf-changing
     [])
 ENGINES[0]["serves_properties"] = sorted(PROPS.keys())
 NOT_APPLICABLE[:] = [{"property_id": p, "reason": "check not built yet in this round (planned, see DESIGN.md §5); not claimed"} for p in _ALL if p not in PROPS]
+
+# ------------------------------------------------------------------ trap-and-emulate CPU (E4) properties
+_E4 = ["real inline asm of the crate executed; sensitive instructions decoded and applied to a simulated register file (storage only: no architectural faults)",
+       "instruction decoder (simcpu.rs, Appendix B of DESIGN.md) and arch.rs tables are the trusted base"]
+
+def c11_units(tier):
+    us = mapper_units(tier)
+    for prof in BOTH:
+        us.append(dict(sub="C11F", profile=prof, shards=16))
+    return us
+PROPS["C11"]["units"] = c11_units
+PROPS["C11"]["profiles"] = BOTH
+PROPS["C11"]["rule"] += (" Flush part: tlb::flush / MapperFlush::flush for every canonical boundary address and 3 page sizes (one invlpg of exactly that address); "
+    "flush_all / MapperFlushAll::flush_all for 5 frames x 19 low-12-bit patterns of CR3 (events exactly [read CR3 = v, write CR3 = v]); flush_pcid for ALL 4096 PCIDs x 4 kinds "
+    "(type register and 16-byte descriptor); Invlpgb::new under emulated CS/CPUID for count_max in {0,1,3,7,255,65535}(+more in thorough) x nested support; "
+    "builder x 32 option combinations x 4KiB/2MiB ranges of 0..20,257 pages placed low / ending at / straddling / starting at the canonical boundary / at the top: "
+    "every INVLPGB request's rAX/ECX/EDX decoded per the APM, counts <= maximum, union covers the range, no request crosses the gap.")
+PROPS["C11"]["assumptions"] = _E4 + ["INVLPGB count semantics: coverage is checked under the crate's reading (max(count,1) pages), the smaller of the two readings (O1)"]
+
+PROPS["C16"] = dict(
+    profiles=BOTH, level="model_checking", units=units_simple(6), engine="vh C16",
+    technique="bounded exhaustive enumeration of (prior register content x wrapper x argument) with depth-2 histories (write;read), every execution single-stepped on a trap-and-emulate CPU model and its instruction/event trace compared with the architectural reference",
+    rule=("every wrapper named in the property executed under RFLAGS.TF single-stepping with each sensitive instruction (mov crN/drN, rdmsr/wrmsr, xgetbv/xsetbv, mov sreg, "
+          "rd/wrfsbase, swapgs, ltr, lgdt/lidt/sgdt/sidt, pushfq/popfq, ld/stmxcsr, retfq) emulated: prior contents = 0, all-ones, every single bit, every all-but-one, patterns "
+          "(134 values; thinned x1/3 in quick) x arguments = empty/all/each single flag/all-but-one, 6 frames, ALL 4096 PCIDs (thorough; 1/7 + single-bit in quick), selector "
+          "quadruples around the +-8/+-16/RPL rules, canonical boundary addresses, all PAT types in each slot, DR7 valid-bit lattice, 256 XCR0 subsets x {MPK,LWP}. Oracle: the event "
+          "list equals the expected sequence (right instruction, register/MSR number, 64-bit value), typed write = (old & ~modelled)|fields where the crate documents preservation "
+          "(Cr0 Cr4 Efer XCr0 Dr7 rflags ApicBase) and exactly the fields for plain writes, typed read = modelled bits, update = read-modify-write, write-then-read round trip, "
+          "documented rejections produce no write event. state = (wrapper, register content); transitions = emulated sensitive instructions."),
+    assumptions=_E4 + ["'preserving every bit the type does not model' is demanded only where the crate documents preservation; for Star/SFMask/UCet/SCet/Pat/Cr3/address MSRs (plain writes) the written value is exactly the given fields",
+                       "the upper halves of RAX/RDX at WRMSR/XSETBV are don't-care"],
+)
+PROPS["C17"] = dict(
+    profiles=BOTH, level="model_checking", units=units_simple(16), engine="vh C17",
+    technique="exhaustive enumeration of nesting programs up to a depth/branching bound, each interpreted by real nested calls under single-stepping with the interrupt flag held in the CPU model",
+    rule=("all trees of without_interrupts nestings with depth<=3 and <=2 siblings, depth<=2 and <=3 siblings, chains to depth 8 (thorough: + depth 2 x 4 siblings, depth 4 x 1) x initial "
+          "IF in {0,1} x 2 result seeds, interpreted by real nested calls; in every closure body IF (read from the CPU model, not through the crate) is 0, each body runs once, after each "
+          "call IF equals its value before, the result passes through, only pushfq/cli/sti are executed; enable/disable/are_enabled x 6 flag words; enable_and_hlt: the executed "
+          "stream is sti immediately followed by hlt at the adjacent address."),
+    assumptions=_E4 + ["atomicity of sti;hlt (interrupt shadow) is a hardware guarantee; checked as adjacency in the executed instruction stream"],
+)
+PROPS["C18"] = dict(
+    profiles=BOTH, level="exploration", units=units_simple(16), engine="vh C18",
+    rule=("fault mode (#GP at in/out in ring 3, decoded and emulated): ALL 65536 ports x u8/u16/u32 x read/write x Port/PortReadOnly/PortWriteOnly x 3 values (6 for every 64th port): "
+          "exactly one in/out event, port == constructor argument, width from opcode/prefix, value written == argument, value read == value supplied by the device; canaries around the "
+          "port object; step mode on a 200-port alphabet (complete instruction stream: no other sensitive instruction); PartialEq/Clone on all pairs of a ~300-port set."),
+    assumptions=_E4 + ["'without touching memory' observed through canaries around the port object and the absence of other sensitive instructions, not through a memory monitor"],
+)
+def c20_units(tier):
+    us = [dict(sub="C20", profile="chk", shards=16)]
+    for R in [1, 2, 126, 200, 248]:
+        us.append(dict(sub="C20", profile="chk", args=["ctor", str(R)]))
+    return us
+PROPS["C20"] = dict(
+    profiles=["chk"], level="exploration", units=c20_units, engine="vh C20",
+    rule=("address computation: ALL 512 recursive indices x each upper page index through all 512 values (others in {0,1,255,256,511}) x 3 sizes, p3/p2/p1 table pages and pointers "
+          "(through the verif_hooks accessors) == sign_extend(R<<39|R<<30|R<<21|p4<<12) etc.; constructor: for R in {1,2,126,200,248} a real table at (R,R,R,R) (the simulated level-4 "
+          "frame) and real pages at every near-recursive address (one index +1/-1/+2 in each position) x 5 CR3 contents (emulated mov r,cr3) x 6 contents of the candidate slot: "
+          "NotRecursive / NotActive / Ok exactly as specified; the index it then uses is observed from the first recursive-window address it dereferences."),
+    assumptions=_E4 + ["recursive indices >= 256 are reached for the address computation only (kernel-half addresses cannot be mapped in a user process)"],
+)
+ENGINES[0]["serves_properties"] = sorted(PROPS.keys())
+NOT_APPLICABLE[:] = [{"property_id": p, "reason": "check not built yet; not claimed"} for p in _ALL if p not in PROPS]
